@@ -52,7 +52,13 @@ def run(it, st, fr, inv, itv):
             raise Unsupported('invariant loop with non-name target')
         tgt = st.target.id
         mod.discard(tgt)
-        if isinstance(itv, ops.SymRange):
+        str_seq = None
+        from .core import SStr
+        if isinstance(itv, SStr):
+            # for ch in s:  ==  for k in range(len(s)): ch = s[k]
+            str_seq = itv
+            lo, hi = 0, mk_int(z3.Length(itv.e))
+        elif isinstance(itv, ops.SymRange):
             lo, hi = itv.lo, itv.hi
         elif isinstance(itv, range) and itv.step == 1:
             lo, hi = itv.start, itv.stop
@@ -81,7 +87,11 @@ def run(it, st, fr, inv, itv):
             k = SInt(z3.Int('%s!k%d' % (tgt, next(p.fresh))))
             p.assume(mk_bool(z3.And(k.e >= loz, k.e < hiz)))
             p.assume(inv_at(k))
-            fr.locals[tgt] = k
+            if str_seq is not None:
+                from .strings import mk_str
+                fr.locals[tgt] = mk_str(z3.SubString(str_seq.e, k.e, 1))
+            else:
+                fr.locals[tgt] = k
         else:
             p.assume(inv_at())
             if not it.truth(it.eval(st.test, fr)):
